@@ -968,7 +968,9 @@ void __verif_new_bound(u64 n, u64 max);
 #endif
 /* operator new(n) whose result is used as T[]: one typed block of VERIF_NEW_ELEMS elements (constant size) */
 #define VERIF_NEW_VAR(T, n) (__verif_new_bound((n), sizeof(T) * VERIF_NEW_ELEMS), malloc(sizeof(T) * VERIF_NEW_ELEMS))
-#ifndef __CPROVER
+#if defined(VERIF_NATIVE) && !defined(__CPROVER_assume)
+/* native (gcc) build of the translated unit only: allocation-success assumes are no-ops.
+   Under goto-cc/cbmc __CPROVER_assume is the built-in and must never be macro-defined away. */
 #define __CPROVER_assume(c) do { } while (0)
 #endif
 #endif
@@ -1074,10 +1076,11 @@ class Emitter:
             ps = [self.ct(x) for x in t[2]]
             nm = self.uniq_t('F%d' % (len(self.tnames)))
             self.tnames[t] = nm
-            if t[3]:
+            if t[3] and ps:
                 ps.append('...')
             if not ps:
-                ps = ['void']
+                # `T (...)` (the vtable slot type i32 (...)*) is not C before C23: unprototyped function type
+                ps = [] if t[3] else ['void']
             self.tdecl.append('typedef %s %s(%s);' % (rn, nm, ', '.join(ps)))
             r = nm
         elif k == 'vec':
